@@ -815,6 +815,9 @@ impl Check for C07 {
         json!({"real": ["CaoLangTable", "CaoHashMap<Value,Value,AllocProxy>", "Value Hash/Eq", "table instructions of the VM", "collector / allocator"],
                "stub": ["log host native (observation channel)"]})
     }
+    fn asan_flavour_share(&self) -> bool {
+        true
+    }
     fn required_probes(&self, _tier: Tier) -> Vec<String> {
         vec![
             "fault:collections_forced".into(),
